@@ -267,7 +267,8 @@ class Dm1:
         # calculate numboer of DTCs
         number_dtc = int(dtc_length / 4)
 
-        # get lamp status
+        # get lamp status (into a dictionary of its own: the one in place may be the one the sending application handed over)
+        self._lamp_status = {}
         self._lamp_status['pl']  = DtcLamp().get_status( self._data[0] & 0x03,        self._data[1] & 0x03)
         self._lamp_status['awl'] = DtcLamp().get_status((self._data[0] >> 2) & 0x03, (self._data[1] >> 2) & 0x03)
         self._lamp_status['rsl'] = DtcLamp().get_status((self._data[0] >> 4) & 0x03, (self._data[1] >> 4) & 0x03)
